@@ -1,4 +1,4 @@
-"""shapesym (E5): region-directed path exploration for *symbolic program builders*.
+r"""shapesym (E5): region-directed path exploration for *symbolic program builders*.
 
 A builder function constructs a program (a Batch pipeline) from symbolic inputs and runs the repository's real
 front-end code on it natively.  Symbolic inputs are z3-backed proxies (vt.glue.SBool / SInt) and solver-chosen
@@ -29,78 +29,127 @@ from .common import HarnessError
 from .glue import SBool, SInt  # noqa: F401  (re-exported for harnesses)
 
 
-class Path:
-    """One explored execution: `pc` (list of z3 constraints: region + decisions) describes exactly the inputs
-    for which the execution was followed; `value`/`exc` is what the body returned/raised."""
-    __slots__ = ('pc', 'value', 'exc', 'choices')
+class Lit:
+    """A decided branch condition: z3 atom + polarity (the z3 literal is built on demand)."""
+    __slots__ = ('atom', 'pol', 'id', '_e')
 
-    def __init__(self, pc, value=None, exc=None, choices=None):
-        self.pc = pc
+    def __init__(self, atom, pol):
+        self.atom = atom
+        self.pol = pol
+        self.id = atom.get_id()
+        self._e = None
+
+    def expr(self):
+        if self._e is None:
+            self._e = self.atom if self.pol else z3.Not(self.atom)
+        return self._e
+
+    def negated(self):
+        return Lit(self.atom, not self.pol)
+
+
+class Path:
+    """One explored execution: `lits` (region + decisions) describes exactly the inputs for which the execution
+    was followed; `value`/`exc` is what the body returned/raised."""
+    __slots__ = ('lits', 'value', 'exc', 'choices')
+
+    def __init__(self, lits, value=None, exc=None, choices=None):
+        self.lits = lits
         self.value = value
         self.exc = exc
         self.choices = choices or {}
 
+    @property
+    def pc(self):
+        return [l.expr() for l in self.lits]
+
     def cond(self):
-        return z3.And(*self.pc) if self.pc else z3.BoolVal(True)
+        return z3.And(*self.pc) if self.lits else z3.BoolVal(True)
 
 
 class _Ctx:
-    """Duck-types vt.glue.Ctx (glue.SBool.__bool__ calls `glue._CTX.decide`)."""
+    """Duck-types vt.glue.Ctx (glue.SBool.__bool__ calls `glue._CTX.decide`).  The explorer's solver holds one
+    push level per literal of region + decisions, shared between consecutive executions (DFS order makes the
+    next region a long prefix of the current path plus one negated literal)."""
 
     def __init__(self, ex, region):
         self.ex = ex
-        self.region = list(region)
+        self.region = region
         self.pc = []          # decisions of this execution (forced ones included)
         self.alts = []
-        self.known = {}       # ast id -> bool, for conditions literally fixed by region/pc
         self.choices = {}
         s = ex.solver
-        s.push()
-        for c in self.region:
-            s.add(c)
-            self._note(c)
-        r = s.check()
+        st = ex.stack
+        k = 0
+        while k < len(st) and k < len(region) and st[k].id == region[k].id and st[k].pol == region[k].pol:
+            k += 1
+        if len(st) > k:
+            s.pop(len(st) - k)
+            del st[k:]
+        for lit in region[k:]:
+            s.push()
+            s.add(lit.expr())
+            st.append(lit)
+        self.known = {lit.id: lit for lit in region}   # atom id -> literal fixed by region/pc
+        r = str(s.check())
         ex.solver_calls += 1
-        if str(r) != 'sat':
-            s.pop()
+        if r != 'sat':
             raise HarnessError(f'shapesym: region is {r}')
         self.model = s.model()
-
-    def _note(self, c):
-        if z3.is_not(c):
-            self.known[c.arg(0).get_id()] = (False, c)
-        else:
-            self.known[c.get_id()] = (True, c)
-
-    def close(self):
-        self.ex.solver.pop()
 
     def full(self):
         return self.region + self.pc
 
-    def assume(self, cond):
-        """Restrict this execution to `cond` without queueing the complement (used for domain limits)."""
-        k = self.known.get(cond.get_id())
-        if k is not None:
-            if not k[0]:
-                raise glue.PathAbort('infeasible')
-            return
+    def _fix(self, lit):
         s = self.ex.solver
-        if not z3.is_true(self.model.eval(cond, model_completion=True)):
-            s.push()
-            s.add(cond)
-            r = str(s.check())
-            self.ex.solver_calls += 1
-            m2 = s.model() if r == 'sat' else None
-            s.pop()
-            if r == 'unsat':
+        s.push()
+        s.add(lit.expr())
+        self.ex.stack.append(lit)
+        self.pc.append(lit)
+        self.known[lit.id] = lit
+        if len(self.pc) > self.ex.max_decisions:
+            raise glue.GlueHarnessAbort('shapesym: too many symbolic branch decisions on one path')
+
+    def _other_side(self, e):
+        s = self.ex.solver
+        s.push()
+        s.add(e)
+        r = str(s.check())
+        self.ex.solver_calls += 1
+        m = s.model() if r == 'sat' else None
+        s.pop()
+        if r not in ('sat', 'unsat'):
+            raise glue.GlueHarnessAbort(f'shapesym: solver said {r} on a branch condition')
+        return m
+
+    def decide_atom(self, atom, fork=True):
+        """atom: a non-negated z3 Bool term.  Returns the side taken.  With fork=False the complement is not
+        queued (domain limits of `choose`): the execution is restricted to the atom or aborted."""
+        k = self.known.get(atom.get_id())
+        if k is not None:
+            if not fork and not k.pol:
                 raise glue.PathAbort('infeasible')
-            if r != 'sat':
-                raise glue.GlueHarnessAbort(f'shapesym: solver said {r}')
-            self.model = m2
-        s.add(cond)
-        self.pc.append(cond)
-        self.known[cond.get_id()] = (True, cond)
+            return k.pol
+        v = z3.is_true(self.model.eval(atom, model_completion=True))
+        if not fork:
+            if not v:
+                m2 = self._other_side(atom)
+                if m2 is None:
+                    raise glue.PathAbort('infeasible')
+                self.model = m2
+            self._fix(Lit(atom, True))
+            return True
+        m2 = self._other_side(z3.Not(atom) if v else atom)
+        if m2 is not None:
+            choice = True
+            self.alts.append(self.full() + [Lit(atom, False)])
+            if not v:
+                self.model = m2
+            self.ex.forks += 1
+        else:
+            choice = v
+        self._fix(Lit(atom, choice))
+        return choice
 
     def decide(self, cond):
         if isinstance(cond, bool):
@@ -114,119 +163,112 @@ class _Ctx:
         while z3.is_not(cond):
             cond = cond.arg(0)
             neg = not neg
-        k = self.known.get(cond.get_id())
-        if k is not None:
-            return k[0] != neg
-        ex = self.ex
-        s = ex.solver
-        v = z3.is_true(self.model.eval(cond, model_completion=True))
-        other = z3.Not(cond) if v else cond
+        return self.decide_atom(cond) != neg
+
+    def query(self, *fs):
+        r"""Satisfiability of constraints /\ region /\ decisions /\ fs (per-path obligations; with no fs it is the
+        reachability twin of this path)."""
+        s = self.ex.solver
         s.push()
-        s.add(other)
+        if fs:
+            s.add(*fs)
         r = str(s.check())
-        ex.solver_calls += 1
-        m2 = s.model() if r == 'sat' else None
+        self.ex.solver_calls += 1
+        m = s.model() if r == 'sat' else None
         s.pop()
-        if r not in ('sat', 'unsat'):
-            raise glue.GlueHarnessAbort(f'shapesym: solver said {r} on a branch condition')
-        if r == 'sat':
-            choice = True
-            self.alts.append(self.full() + [z3.Not(cond)])
-            if not v:
-                self.model = m2
-            ex.forks += 1
-        else:
-            choice = v
-        lit = cond if choice else z3.Not(cond)
-        s.add(lit)
-        self.pc.append(lit)
-        self.known[cond.get_id()] = (choice, lit)
-        if len(self.pc) > ex.max_decisions:
-            raise glue.GlueHarnessAbort('shapesym: too many symbolic branch decisions on one path')
-        return choice != neg
+        return r, m
 
 
 class Explorer:
-    def __init__(self, constraints=(), max_paths=200000, max_decisions=200, deadline=None):
+    def __init__(self, constraints=(), max_paths=5000000, max_decisions=200, deadline=None):
         self.solver = z3.Solver()
         self.solver.set('timeout', 20000)
         self.constraints = list(constraints)
         self.solver.add(*self.constraints)
+        self.stack = []
         self.max_paths = max_paths
         self.max_decisions = max_decisions
         self.deadline = deadline
         self.solver_calls = 0
         self.forks = 0
         self.paths = 0
-        self.domains = {}      # name -> (z3 Int, n options)
+        self.domains = {}      # name -> (z3 Int, n options, [atoms x == i])
         self.bools = {}
         self.complete = False
 
     # ---- exploration ---------------------------------------------------------------------------------
-    def run(self, body, on_path=None):
+    def run(self, body, on_path=None, keep_paths=True):
         """Explore `body()` (a function returning a value or a coroutine) over the whole constrained input space.
-        Returns the list of Path; `on_path(path)` is called as soon as a path is finished."""
+        `on_path(path, query)` is called when a path is finished, while the solver still holds its path
+        condition: query(*formulas) -> ('sat'|'unsat'|'unknown', model).  Returns the list of Path."""
         work = [[]]
         outs = []
         self.complete = False
-        while work:
-            if self.deadline is not None and time.time() > self.deadline:
-                return outs          # incomplete: self.complete stays False
-            region = work.pop()
-            self.paths += 1
-            if self.paths > self.max_paths:
-                raise HarnessError('shapesym: path budget exceeded')
-            ctx = _Ctx(self, region)
-            prev = glue._CTX
-            glue._CTX = ctx
-            p = None
-            try:
-                r = body()
-                if asyncio.iscoroutine(r):
-                    loop = asyncio.new_event_loop()
-                    try:
-                        r = loop.run_until_complete(r)
-                    finally:
-                        loop.close()
-                p = Path(ctx.full(), value=r, choices=ctx.choices)
-            except glue.PathAbort:
-                pass
-            except glue.GlueHarnessAbort as e:
-                raise HarnessError(str(e))
-            except HarnessError:
-                raise
-            except Exception as e:  # the code under test raised: an outcome of this path
-                p = Path(ctx.full(), exc=e, choices=ctx.choices)
-            finally:
-                glue._CTX = prev
-                ctx.close()
-            work.extend(ctx.alts)
-            if p is not None:
-                outs.append(p)
-                if on_path is not None:
-                    on_path(p)
-        self.complete = True
-        return outs
+        try:
+            while work:
+                if self.deadline is not None and time.time() > self.deadline:
+                    return outs          # incomplete: self.complete stays False
+                region = work.pop()
+                self.paths += 1
+                if self.paths > self.max_paths:
+                    raise HarnessError('shapesym: path budget exceeded')
+                ctx = _Ctx(self, region)
+                prev = glue._CTX
+                glue._CTX = ctx
+                p = None
+                try:
+                    r = body()
+                    if asyncio.iscoroutine(r):
+                        loop = asyncio.new_event_loop()
+                        try:
+                            r = loop.run_until_complete(r)
+                        finally:
+                            loop.close()
+                    p = Path(ctx.full(), value=r, choices=ctx.choices)
+                except glue.PathAbort:
+                    pass
+                except glue.GlueHarnessAbort as e:
+                    raise HarnessError(str(e))
+                except HarnessError:
+                    raise
+                except Exception as e:  # the code under test raised: an outcome of this path
+                    p = Path(ctx.full(), exc=e, choices=ctx.choices)
+                finally:
+                    glue._CTX = prev
+                work.extend(ctx.alts)
+                if p is not None:
+                    if keep_paths:
+                        outs.append(p)
+                    else:
+                        outs.append(Path(p.lits))
+                    if on_path is not None:
+                        on_path(p, ctx.query)
+            self.complete = True
+            return outs
+        finally:
+            if self.stack:
+                self.solver.pop(len(self.stack))
+                del self.stack[:]
 
     def domain_constraints(self):
-        return [z3.And(x >= 0, x < n) for x, n in self.domains.values()]
+        return [z3.And(d[0] >= 0, d[0] < d[1]) for d in self.domains.values()]
 
-    def exhaustive(self, paths, chunk=400):
-        """One solver verdict that the explored path conditions cover the whole input space:
-        constraints /\\ domains /\\ not(pc_1) /\\ ... /\\ not(pc_n) is unsat."""
+    def exhaustive(self, paths):
+        r"""One solver verdict that the explored path conditions cover the whole input space:
+        constraints /\ domains /\ not(pc_1) /\ ... /\ not(pc_n) is unsat."""
         if not self.complete:
             return 'unknown'
         s = z3.Solver()
-        s.set('timeout', 120000)
+        s.set('timeout', 300000)
         s.add(*self.constraints)
         s.add(*self.domain_constraints())
         for p in paths:
-            s.add(z3.Not(p.cond()))
+            s.add(z3.Or(*[l.negated().expr() for l in p.lits]) if p.lits else z3.BoolVal(False))
         self.solver_calls += 1
         return str(s.check())
 
     def sat(self, *fs):
-        """Satisfiability of constraints /\\ fs (used for per-path obligations and reachability twins)."""
+        r"""Satisfiability of constraints /\ fs (outside a run)."""
         s = self.solver
         s.push()
         s.add(*fs)
@@ -245,15 +287,19 @@ def choose(name, options):
         raise HarnessError('choose() outside a shapesym run')
     options = list(options)
     n = len(options)
-    x = z3.Int(name)
-    ctx.ex.domains[name] = (x, n)
+    d = ctx.ex.domains.get(name)
+    if d is None or d[1] != n:
+        x = z3.Int(name)
+        d = (x, n, [x == i for i in range(n)])
+        ctx.ex.domains[name] = d
+    atoms = d[2]
     for i in range(n - 1):
-        if ctx.decide(x == i):
+        if ctx.decide_atom(atoms[i]):
             ctx.choices[name] = i
             return options[i]
     # the remaining value of the domain 0..n-1: no fork (values outside the domain are not inputs), but the
     # literal is recorded so that the path condition stays exact, after checking that it is feasible
-    ctx.assume(x == n - 1)
+    ctx.decide_atom(atoms[n - 1], fork=False)
     ctx.choices[name] = n - 1
     return options[-1]
 
